@@ -156,6 +156,8 @@ static int failing(void) { return fail_at >= 0 && cbcount == fail_at; }
 static uint64_t dbits(double d) { uint64_t u; memcpy(&u, &d, 8); return u; }
 static double bitsd(uint64_t u) { double d; memcpy(&d, &u, 8); return d; }
 
+static cfg_t *ctx[4];
+
 static int cb_parse(cfg_t *cfg, cfg_opt_t *opt, const char *value, void *result)
 {
 	int fail;
@@ -167,6 +169,20 @@ static int cb_parse(cfg_t *cfg, cfg_opt_t *opt, const char *value, void *result)
 	fputs("\n", obs);
 	fail = !value || failing() || value[0] == '!';
 	cbcount++;
+	/* "nest:<text>": the callback parses <text> into context 1 while the parse that called it is still running, and then
+	 * goes on using its argument: the token text it was given must still be there, unchanged */
+	if (value && !strncmp(value, "nest:", 5) && ctx[1] && ctx[1] != cfg) {
+		char *saved = strdup(value);
+		int rc;
+
+		in_nest++;
+		rc = cfg_parse_buf(ctx[1], saved + 5);
+		in_nest--;
+		fprintf(obs, "T nest %d\n", rc);
+		if (strcmp(value, saved) != 0)
+			fprintf(obs, "H value-changed\n");
+		free(saved);
+	}
 	if (fail) {
 		if (value)
 			cfg_error(cfg, "callback failed");
@@ -305,7 +321,6 @@ static int cb_valid2(cfg_t *cfg, cfg_opt_t *opt, void *value)
 	return fail;
 }
 
-static cfg_t *ctx[4];
 
 static int cb_func(cfg_t *cfg, cfg_opt_t *opt, int argc, const char **argv)
 {
